@@ -510,8 +510,8 @@ def is_prestate_term(t):
         seen.add(x.get_id())
         if z3.is_app(x):
             k = x.decl().kind()
-            if k in (z3.Z3_OP_STORE, z3.Z3_OP_ITE):
-                return False
+            if k == z3.Z3_OP_STORE:
+                return False          # (an if-then-else all of whose operands are entry-state terms is an entry-state term)
             if k == z3.Z3_OP_UNINTERPRETED and x.num_args() == 0:
                 nm = x.decl().name()
                 if nm == "$alloc@0" or not (nm.endswith("@0") or nm.startswith("p_")):
